@@ -51,6 +51,11 @@ type Action struct {
 	Dt    int64 // new block's creation date = parent's + Dt (default 1)
 	Miner int   // generator (index into World.Miners)
 	Build func(x *Ctx) *world.TxnSpec
+	// Before (optional) returns transactions executed in the SAME block before the action's own
+	// transaction (they must all be accepted); the block's Txns list holds them while the action's
+	// transaction runs, as in a generated block. Monitors then see Step.PreLeaves / Step.Diff
+	// relative to the state after these transactions.
+	Before func(x *Ctx) []*world.TxnSpec
 }
 
 // SNode is an explored state.
@@ -79,6 +84,10 @@ type Step struct {
 	Events []event.Event
 	Tap    []world.TapRec
 	Diff   []LeafDiff
+	// PreLeaves is the leaf set the action's own transaction was applied to: Pre.Leaves, or the
+	// state after the Action.Before transactions of the same block.
+	PreLeaves []world.Leaf
+	BeforeTxns []*transaction.Transaction
 	Tags   []string // monitors may tag a step; tags are counted into coverage.transition_outcomes as "tag:<t>"
 }
 
@@ -189,7 +198,27 @@ func (e *Explorer) apply(s *SNode, a *Action) *Step {
 	if !e.WarmCache {
 		e.W.Chain.SetupStateCache()
 	}
+	var before []*world.TxnSpec
+	if a.Before != nil {
+		before = a.Before(x)
+	}
 	nd := e.W.Open(s.N, x.Rnd, x.Now, e.W.Miners[a.Miner%len(e.W.Miners)], 1000+x.Rnd, strings.Join(s.Path, "/")+"/"+a.Name)
+	preLeaves := s.Leaves
+	var beforeTxns []*transaction.Transaction
+	for _, bs := range before {
+		if bs.Time == 0 {
+			bs.Time = x.Now
+		}
+		bt := e.W.Txn(*bs)
+		if _, err := e.W.Exec(nd, bt); err != nil {
+			ev.Fatal("action %s: a Before transaction was rejected: %v", a.Name, err)
+		}
+		beforeTxns = append(beforeTxns, bt)
+		nd.Block.Txns = nd.Txns
+	}
+	if len(before) > 0 {
+		preLeaves = world.Leaves(nd.State)
+	}
 	t := e.W.Txn(*spec)
 	world.Tap.Begin()
 	evs, err := e.W.Exec(nd, t)
@@ -198,7 +227,8 @@ func (e *Explorer) apply(s *SNode, a *Action) *Step {
 	post := &SNode{N: nd, Depth: s.Depth + 1, Path: append(append([]string{}, s.Path...), a.Name)}
 	post.Leaves = world.Leaves(nd.State)
 	post.Key = e.canon(nd, post.Leaves)
-	return &Step{W: e.W, Pre: s, Post: post, Action: a, Txn: t, Err: err, Events: evs, Tap: tap, Diff: diffLeaves(s.Leaves, post.Leaves)}
+	return &Step{W: e.W, Pre: s, Post: post, Action: a, Txn: t, Err: err, Events: evs, Tap: tap, Diff: diffLeaves(preLeaves, post.Leaves),
+		PreLeaves: preLeaves, BeforeTxns: beforeTxns}
 }
 
 func (e *Explorer) root(script []Action, name string) *SNode {
